@@ -185,6 +185,36 @@ Proof.
   { intros c f l. induction l as [|a l IHl]; cbn [map sumq fold_right]; [ring|]. unfold sumq in IHl. rewrite IHl. ring. }
   rewrite Hs, sumq_ip. fold (norm2 k). rewrite <- Hd. field. exact Hd0.
 Qed.
+(* (poly-d) the normalised design X = [1 | P_1/d_1 .. P_degree/d_degree] (d_k^2 = norms2_k) has X^T X = diag(n, 1, .., 1): the coefficient
+   matrix diag(1/n, 1, .., 1) X^T is its inverse *)
+Lemma sumq_scal c (f : Qc -> Qc) l : sumq (map (fun x => c * f x) l) = c * sumq (map f l).
+Proof. induction l as [|a l IHl]; cbn [map sumq fold_right]; [ring|]. unfold sumq in IHl. rewrite IHl. ring. Qed.
+Theorem fitted_gram_full degree (d : nat -> Qc) j k : nz degree -> (j <= degree)%nat -> (k <= degree)%nat ->
+  let st := train xs (S degree) in
+  d 0%nat = 1 -> (forall i, (1 <= i <= degree)%nat -> d i * d i = nth i (snd st) 0) ->
+  sumq (map (fun x => (evalP (fst st) (snd st) j x / d j) * (evalP (fst st) (snd st) k x / d k)) xs)
+  = if Nat.eqb j k then (if Nat.eqb j 0 then sumq (map (fun _ => 1) xs) else 1) else 0.
+Proof.
+  intros Hnz Hj Hk st H0 Hd.
+  assert (Hd0 : forall i, (i <= degree)%nat -> d i <> 0).
+  { intros i Hi. destruct i as [|i]; [rewrite H0; discriminate|]. intros E. specialize (Hd (S i) ltac:(lia)).
+    subst st. rewrite train_spec in Hd. cbn [snd] in Hd. rewrite nth_nrs in Hd by lia. apply (Hnz (S i) Hi). rewrite <- Hd, E. ring. }
+  destruct (Nat.eqb j k) eqn:E.
+  - apply Nat.eqb_eq in E. subst k. destruct j as [|j]; cbn [Nat.eqb].
+    + cbn [evalP]. rewrite H0. apply f_equal. apply map_ext. intros x. field. discriminate.
+    + apply (fitted_columns_unit_length degree (S j) (d (S j)) Hnz Hj). apply Hd. lia.
+  - apply Nat.eqb_neq in E.
+    assert (G : forall a b, (a < b)%nat -> (b <= degree)%nat ->
+                sumq (map (fun x => (evalP (fst st) (snd st) a x / d a) * (evalP (fst st) (snd st) b x / d b)) xs) = 0).
+    { intros a b Hab Hb.
+      rewrite (map_ext _ (fun x => (/ (d a * d b)) * (evalP (fst st) (snd st) a x * evalP (fst st) (snd st) b x))).
+      2:{ intros x. field. split; apply Hd0; lia. }
+      rewrite sumq_scal. subst st. rewrite (fitted_columns_orthogonal degree a b Hnz Hab Hb). ring. }
+    destruct (Nat.lt_ge_cases j k) as [L|L].
+    + apply G; assumption.
+    + rewrite (map_ext _ (fun x => (evalP (fst st) (snd st) k x / d k) * (evalP (fst st) (snd st) j x / d j))) by (intros; ring).
+      apply G; lia.
+Qed.
 End Poly.
 
 (* (poly-c) P_k is monic of exact degree k: P_k(x) = x^k + (a polynomial of degree < k); so the basis spans the raw powers *)
